@@ -424,6 +424,44 @@ impl BuilderHistory {
     }
 }
 
+/// Chained ambiguity tables that are NOT transitively closed (X -> Y, Y -> Z; cycles; longer
+/// chains), in both declaration orders; pattern over A,C,W,X,Y and texts in which the chained
+/// symbols stand under each other (a text Z under a pattern X must NOT match).
+pub fn chain_config(rng: &mut Rng, which: u64, m: usize) -> (Tables, Vec<u8>, Vec<Vec<u8>>) {
+    let mut calls: Vec<(u8, Vec<u8>)> = match which % 4 {
+        0 => vec![(b'X', b"Y".to_vec()), (b'Y', b"Z".to_vec())],
+        1 => vec![(b'X', b"Y".to_vec()), (b'Y', b"X".to_vec())], // cycle
+        2 => vec![(b'W', b"X".to_vec()), (b'X', b"Y".to_vec()), (b'Y', b"Z".to_vec())],
+        _ => vec![(b'X', b"YA".to_vec()), (b'Y', b"ZC".to_vec()), (b'Z', b"W".to_vec())],
+    };
+    if (which / 4) % 2 == 1 {
+        calls.reverse(); // the other declaration order
+    }
+    let mut tb = Tables::default();
+    tb.ambig = calls;
+    let mut p = rng.seq(m, b"ACWXY");
+    p[rng.below(m as u64) as usize] = b'X';
+    let mut texts = vec![];
+    for ti in 0..3u8 {
+        let pre = rng.below(4) as usize;
+        let mut t = rng.seq(pre, b"ACZ");
+        // what stands under the chained symbols: one step down the chain, two steps, or a mix
+        t.extend(p.iter().map(|&c| match (c, ti) {
+            (b'W', 0) => b'X',
+            (b'W', _) => b'Y',
+            (b'X', 0) => b'Y',
+            (b'X', _) => b'Z',
+            (b'Y', 2) => b'X',
+            (b'Y', _) => b'Z',
+            (c, _) => c,
+        }));
+        let post = rng.below(4) as usize;
+        t.extend(rng.seq(post, b"ACXYZ"));
+        texts.push(t);
+    }
+    (tb, p, texts)
+}
+
 /// stage s (0..4) of the standard re-configuration history of one builder
 pub fn builder_stage(h: &mut BuilderHistory, stage: usize) {
     match stage {
